@@ -1,0 +1,70 @@
+//go:build verif
+
+package nebula
+
+import "net/netip"
+
+// Thin exports for the verification harness (engine `remotelist`). No behaviour.
+
+func VerifRLSetV4(r *RemoteList, owner, vpn netip.Addr, to []netip.AddrPort, check func(vpn, udp netip.Addr) bool) {
+	l := make([]*V4AddrPort, len(to))
+	for i, a := range to {
+		l[i] = netAddrToProtoV4AddrPort(a.Addr(), a.Port())
+	}
+	r.Lock()
+	defer r.Unlock()
+	r.unlockedSetV4(owner, vpn, l, func(v netip.Addr, a *V4AddrPort) bool {
+		return check(v, protoV4AddrPortToNetAddrPort(a).Addr())
+	})
+}
+
+func VerifRLSetV6(r *RemoteList, owner, vpn netip.Addr, to []netip.AddrPort, check func(vpn, udp netip.Addr) bool) {
+	l := make([]*V6AddrPort, len(to))
+	for i, a := range to {
+		l[i] = netAddrToProtoV6AddrPort(a.Addr(), a.Port())
+	}
+	r.Lock()
+	defer r.Unlock()
+	r.unlockedSetV6(owner, vpn, l, func(v netip.Addr, a *V6AddrPort) bool {
+		return check(v, protoV6AddrPortToNetAddrPort(a).Addr())
+	})
+}
+
+func VerifRLSetRelay(r *RemoteList, owner netip.Addr, to []netip.Addr) {
+	r.Lock()
+	defer r.Unlock()
+	r.unlockedSetRelay(owner, to)
+}
+
+func VerifRLPrependV4(r *RemoteList, owner netip.Addr, a netip.AddrPort) {
+	r.Lock()
+	defer r.Unlock()
+	r.unlockedPrependV4(owner, netAddrToProtoV4AddrPort(a.Addr(), a.Port()))
+}
+
+func VerifRLPrependV6(r *RemoteList, owner netip.Addr, a netip.AddrPort) {
+	r.Lock()
+	defer r.Unlock()
+	r.unlockedPrependV6(owner, netAddrToProtoV6AddrPort(a.Addr(), a.Port()))
+}
+
+// VerifRLSetDNS installs a resolved address set the way addStaticRemotes / the resolver callback do.
+func VerifRLSetDNS(r *RemoteList, ips []netip.AddrPort) {
+	hr := &hostnamesResults{}
+	m := map[netip.AddrPort]struct{}{}
+	for _, a := range ips {
+		m[a] = struct{}{}
+	}
+	hr.ips.Store(&m)
+	r.Lock()
+	defer r.Unlock()
+	r.unlockedSetHostnamesResults(hr)
+	r.shouldRebuild = true
+}
+
+func VerifRLRelays(r *RemoteList, preferredRanges []netip.Prefix) []netip.Addr {
+	r.Rebuild(preferredRanges)
+	r.RLock()
+	defer r.RUnlock()
+	return append([]netip.Addr{}, r.relays...)
+}
